@@ -641,3 +641,17 @@ package varlink
 //@   ghostset at call(StdoutPipe)#1 : gOut = res0
 //@   ghostset at call(StdinPipe)#1 : gIn = res0
 //@   assert [wiring C03] at call(NewConn)#1 : unbox(PipeCon, arg0).reader == gOut && unbox(PipeCon, arg0).writer == gIn && unbox(PipeCon, arg0).cmd == cmd
+
+// ---- resolver (C13)
+
+//@ func (*Resolver).Resolve {C13 | safety: C11}
+//@   requires [nn] r != nil && r.conn != nil && r.conn.conn != nil && r.conn.conn.conn != nil && ctx != nil
+//@   modifies gSendErr, gRecvRes, gSendWrites, gm, dlWpast, dlWzero, dlWctx, helper, gDlFail, gCancelled, gCtxErr, gWrCalls, gSends, gSentN, gSentErr
+//@   ensures [self C13] iface == "org.varlink.resolver" ==> result0 == r.address && result1 == nil
+//@   assert [call C13] at call(Call)#1 : arg0 == r.conn && arg2 == "org.varlink.resolver.Resolve" && arg4 == boxed(addr_rep)
+
+//@ func (*Resolver).GetInfo {C13 | safety: C11}
+//@   requires [nn] r != nil && r.conn != nil && r.conn.conn != nil && r.conn.conn.conn != nil && ctx != nil
+//@   modifies *vendor, *product, *version, *url, *interfaces, gSendErr, gRecvRes, gSendWrites, gm, dlWpast, dlWzero, dlWctx, helper, gDlFail, gCancelled, gCtxErr, gWrCalls, gSends, gSentN, gSentErr
+//@   assert [call C13] at call(Call)#1 : arg0 == r.conn && arg2 == "org.varlink.resolver.GetInfo" && arg4 == boxed(addr_rep)
+//@   assert [copy C13] at return#2 : (vendor != nil ==> *vendor == rep.Vendor) && (product != nil ==> *product == rep.Product) && (version != nil ==> *version == rep.Version) && (url != nil ==> *url == rep.URL) && (interfaces != nil ==> *interfaces == rep.Interfaces)
